@@ -686,7 +686,11 @@ func (tx *Tx) prefixScanByHintBPTSparseIdx(bucket string, prefix []byte, offsetN
 	}
 
 	leftNum := limitNum - len(es)
-	if leftNum > 0 {
+	if limitNum == ScanNoLimit {
+		// no limit: the sealed segments are always consulted
+		leftNum = ScanNoLimit
+	}
+	if leftNum > 0 || limitNum == ScanNoLimit {
 		entries, voff, err := tx.prefixScanOnDisk(bucket, prefix, offsetNum, leftNum)
 		if err != nil {
 			return nil, off, err
